@@ -130,13 +130,14 @@ def run_check(mod, tier: str, seed: int) -> int:
     agg: dict[str, Any] = {
         "runs": 0, "skipped": 0, "steps": 0, "faults": Counter(), "probes": Counter(),
         "digests": set(), "line_digests": set(), "nontrivial": set(), "states": set(),
-        "violations": [], "harness": [], "samples": [], "extra": Counter(),
+        "violations": [], "harness": [], "samples": [], "extra": Counter(), "logdig": {},
     }
 
     def on_result(i: int, r: dict) -> None:
         if not r.get("ok"):
             agg["harness"].append((i, r))
             return
+        agg["logdig"][i] = [rr.get("log_digest", "") for rr in r["result"]["runs"]]
         for rr in r["result"]["runs"]:
             if rr.get("verdict") == "skip":
                 agg["skipped"] += 1
@@ -272,6 +273,7 @@ def run_check(mod, tier: str, seed: int) -> int:
         "distinct_model_states": len(agg["states"]),
         "other_counters": dict(sorted(agg["extra"].items())),
         "zygotes_started": zstarts,
+        "batch_log_digest": digest(sorted(agg["logdig"].items())),
         "real_code": mod.DESCRIPTION["real_code"],
         "stubs": mod.DESCRIPTION["stubs"],
         "exhaustive": False,
@@ -297,6 +299,7 @@ def run_check(mod, tier: str, seed: int) -> int:
         f"distinct={len(agg['digests'])} nontrivial={len(agg['nontrivial'])} line_interleavings={len(agg['line_digests'])} "
         f"states={len(agg['states'])} violations={nviol} wall={wall:.1f}s"
     )
+    print(f"[{mod.ID}] batch_log_digest={cov['batch_log_digest'][:32]}")
     print(f"[{mod.ID}] faults={dict(sorted(agg['faults'].items()))}")
     print(f"[{mod.ID}] probes={dict(sorted(agg['probes'].items()))}")
     if missing and exit_code == EXIT_OK and cov["runs_not_executed_budget"] == 0:
